@@ -56,6 +56,15 @@ def enclosing_loop(node, stop=None):
     return None
 
 
+def root_loop(call):
+    """Innermost loop whose *body* contains `call` (a call that is a loop's iterable belongs to the
+    loop around that loop)."""
+    loop = enclosing_loop(call)
+    while isinstance(loop, ast.For) and in_subtree(call, loop.iter):
+        loop = enclosing_loop(loop)
+    return loop
+
+
 def enclosing_loops(node):
     out = []
     p = parent(node)
